@@ -56,8 +56,40 @@ def _point(fn_local, t, q):
     return None
 
 
+def compliance_point(ctx, rule="C19.R6"):
+    """RATTLE's symmetry: stage 1 uses the forces at (t_n, q_n), stage 2 those at (t_{n+1}, q_{n+1}).  In compliance form the spring force is the
+    unknown la_c fixed by c(t, q, u, la_c) = 0; enforcing that equation at the END of the step in stage 1 makes stage 1 apply
+    W_c(q_n) la_c(q_{n+1}): an implicit half step followed by an explicit one at the same point - first order, dissipative, not reversible,
+    and only for force elements in compliance form (cardillo's default), which the force-form rules R1-R4 do not see."""
+    rep = ctx.rep
+    rel = "cardillo/solver/rattle.py"
+    fn = ctx.repo.maybe(rel, "Rattle.R_x1")
+    C = f"{rel}:Rattle.R_x1"
+    if fn is None:
+        rep.ok(rule, C, "Rattle.R_x1 not found (no verdict)", verdict="unknown", trivial=True)
+        return
+
+    def point(name):
+        cs = [w for w in ast.walk(fn) if isinstance(w, ast.Call) and isinstance(w.func, ast.Attribute) and w.func.attr == name and norm_src(w.func.value) == "self.system" and len(w.args) >= 2]
+        return [(norm_src(c.args[0]), norm_src(c.args[1]), c) for c in cs]
+    hp, cp = point("h"), point("c")
+    if not hp or not cp:
+        rep.ok(rule, C, "h(...) / c(...) evaluations of stage 1 not found (no verdict)", verdict="unknown", trivial=True)
+        return
+    ref = hp[0][:2]
+    for (t_, q_, c) in cp:
+        if (t_, q_) == ref:
+            rep.ok(rule, C, f"`{norm_src(c)[:50]}` at the force evaluation point ({ref[0]}, {ref[1]}) of stage 1")
+        else:
+            rep.bad(rule, C, c, f"`{norm_src(c)[:60]}` enforces the compliance law at ({t_}, {q_}) while stage 1 evaluates its forces at ({ref[0]}, {ref[1]}) (`{norm_src(hp[0][2])[:40]}`): "
+                    "for elements in compliance form stage 1 is then implicit in the end point and the step is no longer the adjoint composition - second order, energy behaviour and "
+                    "reversibility are lost for them only", f"{rel}:{c.lineno}")
+
+
 def run(ctx):
     rep = ctx.rep
+    rep.rule("C19.R6", "stage 1: the compliance law c(t, q, u, la_c) that defines the force unknowns la_c is evaluated at the point (t, q) at which stage 1 evaluates its other forces h (start of the step): a force element in compliance form is the same force as in force form, evaluated at the same point", 1)
+    compliance_point(ctx)
     rep.rule("C19.R5", "RATTLE's stage-1 Newton solves run with the solver's configured options: order, drift and reversibility hold 'up to the nonlinear-solver tolerance' the caller asked for, not up to fsolve's default 1e-6", 1)
     from .c23 import options_forwarded
     options_forwarded(ctx, "C19.R5", only="cardillo/solver/rattle.py")
@@ -353,4 +385,9 @@ MUTANTS += [
 NEUTRAL += [
     dict(id="c19-n-r5", canary=True, what="Rattle._solve_nonlinear_system: the two fsolve calls merged into one that still forwards self.options", file='cardillo/solver/rattle.py',
          old='        if self.options.reuse_lu_decomposition:\n            sol = fsolve(\n                lambda x, y, *args: self.R_x1(x, y, *args),\n                x0,\n                jac=lu,\n                fun_args=(y,),\n                options=self.options,\n            )\n        else:\n            sol = fsolve(\n                lambda x, y, *args: self.R_x1(x, y, *args),\n                x0,\n                jac=lambda x, y, *args: self._J_x1(x, y, *args),\n                fun_args=(y,),\n                jac_args=(y,),\n                options=self.options,\n            )\n\n', new='        jac = lu if self.options.reuse_lu_decomposition else self._J_x1\n        sol = fsolve(self.R_x1, x0, jac=jac, fun_args=(y,), jac_args=(() if self.options.reuse_lu_decomposition else (y,)), options=self.options)\n\n'),
+]
+
+MUTANTS += [
+    dict(id="c19-r6-seed", canary=True, what="[seeded by sub-agent] Rattle stage 1 enforces the compliance law at the end of the step (tn1, qn1)", file='cardillo/solver/rattle.py',
+         old="        R[self.split_x1[1] : self.split_x1[2]] = self.system.c(tn, qn, un12, la_c1)\n", new="        R[self.split_x1[1] : self.split_x1[2]] = self.system.c(tn1, qn1, un12, la_c1)\n", expect="C19.R6"),
 ]
